@@ -26,6 +26,11 @@ func (ir *ifdReader) parseTag(t Tag) {
 		switch t.ID {
 		case ifds.Make:
 			ir.Exif.CameraMake, ir.Exif.Make = ir.ParseCameraMake(t)
+			if ir.Exif.Model != "" && ir.Exif.CameraModel == ifds.CameraModelUnknown {
+				// the Model value lies in front of the Make value in this file:
+				// the model table is chosen by the make, which is known only now
+				ir.Exif.CameraModel, ir.Exif.Model = cameraModel(ir.Exif.CameraMake, ir.Exif.Model)
+			}
 		case ifds.Model:
 			ir.Exif.CameraModel, ir.Exif.Model = ir.ParseCameraModel(t)
 		case ifds.Artist:
@@ -169,19 +174,22 @@ func (ir *ifdReader) ParseCameraMake(t Tag) (ifds.CameraMake, string) {
 }
 
 func (ir *ifdReader) ParseCameraModel(t Tag) (ifds.CameraModel, string) {
-	str := ir.ParseBuffer(t)
-	switch ir.Exif.CameraMake {
+	return cameraModel(ir.Exif.CameraMake, string(ir.ParseBuffer(t)))
+}
+
+// cameraModel looks the model text up in the table of its make.
+func cameraModel(mk ifds.CameraMake, str string) (ifds.CameraModel, string) {
+	switch mk {
 	case ifds.Canon:
-		if model, ok := canon.CameraModelFromString(string(str)); ok {
+		if model, ok := canon.CameraModelFromString(str); ok {
 			return ifds.CameraModel(model), model.String()
 		}
 	case ifds.Apple:
-		if model, ok := apple.CameraModelFromString(string(str)); ok {
-			ir.Exif.CameraModel = ifds.CameraModel(model)
+		if model, ok := apple.CameraModelFromString(str); ok {
 			return ifds.CameraModel(model), model.String()
 		}
 	}
-	return ifds.CameraModelUnknown, string(str)
+	return ifds.CameraModelUnknown, str
 }
 
 //func (ir *ifdReader) parseApplicationNotes(t Tag) ApplicationNotes {
